@@ -22,6 +22,13 @@ def _eq(A, B):
     return O.eq(A, B)
 
 
+def _eqf(A, B):
+    try:
+        return all(abs(complex(A.get(k, 0)) - complex(B.get(k, 0))) <= 1e-9 * max(1.0, abs(complex(B.get(k, 0)))) for k in set(A) | set(B))
+    except Exception:
+        return False
+
+
 ALL_BIN = BINARY + ['div']
 ALL_UN = UNARY + ['inv', 'outerexp', 'outersin', 'outercos']
 
@@ -72,10 +79,20 @@ def job_storage(job):
                 for canonical in (True, False):
                     f = m.asfullmv(canonical=canonical)
                     yield f'asfullmv(canonical={canonical})', tuple(f.keys()), list(f.values())
-            for name in job['ops']:
+            for name in list(job['ops']) + (['sqrt', 'norm', 'normalized'] if job.get('study', True) else []):
                 binary = name in ALL_BIN
                 base = None
-                for (va, ak2, av2) in variants(ak, av):
+                study = name in ('sqrt', 'norm', 'normalized')
+                if study:
+                    # Study number: positive scalar + a part of one grade (floats; compared to rounding)
+                    g = rng.randint(1, max(1, alg.d - 1))
+                    gk = list(alg.indices_for_grades[(g,)])
+                    gk = rng.sample(gk, rng.randint(1, min(2, len(gk))))
+                    ak_s = (0,) + tuple(gk)
+                    av_s = [float(rng.randint(6, 9))] + [float(rng.choice([0.5, -0.25, 0.75])) for _ in gk]
+                    import warnings as _w
+                    _w.simplefilter('ignore')
+                for (va, ak2, av2) in (variants(ak_s, av_s) if study else variants(ak, av)):
                     for (vb, bk2, bv2) in (variants(bk, bv) if binary else [('-', None, None)]):
                         if binary and va != 'same' and vb != 'same' and rng.random() < 0.6:
                             continue
@@ -90,7 +107,7 @@ def job_storage(job):
                         if base is None:
                             base = res
                             continue
-                        same = (res[0] == base[0]) and (res[0] == 'raise' and res[1] == base[1] or res[0] == 'value' and _eq(res[1], base[1]))
+                        same = (res[0] == base[0]) and (res[0] == 'raise' and res[1] == base[1] or res[0] == 'value' and (_eq(res[1], base[1]) or _eqf(res[1], base[1])))
                         # a raise may legitimately depend on the pattern only through the element (e.g. ZeroDivisionError)
                         if not same and len(out['failures']) < 20:
                             out['failures'].append({'config': cfg, 'op': name, 'what': 'result depends on storage',
@@ -336,5 +353,72 @@ def job_typeid(job):
                 names[nm] = (ka, kb)
         if len(out['samples']) < 2:
             out['samples'].append({'config': cfg, 'unary_patterns': len(pats), 'example': list(names.items())[-1][0] if names else None})
+    out['distinct'] = n
+    return out
+
+
+# ------------------------------------------------------------------ C09: no shared mutable coefficient storage
+def job_aliasing(job):
+    """No operation hands out the coefficient storage of an operand (or of an earlier result): after writing into a result
+    in place, the operand is unchanged, and vice versa."""
+    import copy
+    rng = random.Random(job.get('seed', 0))
+    out = {'evaluations': 0, 'failures': [], 'samples': [], 'configs': 0}
+    n = 0
+    for cfg in job['configs']:
+        try:
+            alg = make_algebra(cfg)
+        except Exception as _e:
+            out['failures'].append({'config': cfg, 'what': 'constructing an admissible algebra raised', 'error': repr(_e)[:100]})
+            continue
+        out['configs'] += 1
+        d = alg.d
+        operands = []
+        for g in range(d + 1):
+            ks = tuple(alg.indices_for_grades[(g,)])
+            operands.append(('grade-%d' % g, ks))
+        operands.append(('full-canonical', tuple(alg.canon2bin.values())))
+        operands.append(('even', tuple(alg.indices_for_grades[tuple(range(0, d + 1, 2))])))
+        operands.append(('sparse', tuple(rng.sample(range(2 ** d), min(2 ** d, 3)))))
+        calls = {
+            'grade(own grades)': lambda m: m.grade(*m.grades), 'grade(0)': lambda m: m.grade(0), 'grade(all)': lambda m: m.grade(tuple(range(d + 1))),
+            'asfullmv()': lambda m: m.asfullmv(), 'asfullmv(canonical=False)': lambda m: m.asfullmv(canonical=False),
+            'map(identity)': lambda m: m.map(lambda v: v), 'filter(all)': lambda m: m.filter(lambda v: True),
+            'neg': lambda m: -m, 'reverse': lambda m: ~m, 'involute': lambda m: m.involute(), 'add 0': lambda m: m + 0, 'mul 1': lambda m: m * 1, 'sub 0': lambda m: m - 0,
+            'call()': lambda m: m(), 'add(mv, mv)': lambda m: m + m,
+        }       # (constructing a multivector from a caller-supplied list keeps that list by design: not an operation on an operand)
+        for oname, ks in operands:
+            for cname, f in calls.items():
+                vals = [F(rng.randint(1, 9)) for _ in ks]
+                m = mv_from(alg, ks, list(vals))
+                out['evaluations'] += 1
+                n += 1
+                try:
+                    r = f(m)
+                except Exception:
+                    continue
+                if not hasattr(r, 'values') or r is m:
+                    continue
+                rv = r.values()
+                if isinstance(rv, list) and rv:
+                    before = list(m.values())
+                    saved = rv[0]
+                    rv[0] = F(-12345)
+                    changed = list(m.values()) != before
+                    rv[0] = saved
+                    if changed or rv is m.values():
+                        out['failures'].append({'config': cfg, 'operand': oname, 'keys': list(ks), 'call': cname,
+                                                'what': 'the result shares its coefficient storage with the operand: writing into the result changed the operand'})
+                if isinstance(m.values(), list) and m.values() and hasattr(r, 'values'):
+                    before = copy.copy(list(r.values()))
+                    saved = m.values()[0]
+                    m.values()[0] = F(-54321)
+                    changed = list(r.values()) != before
+                    m.values()[0] = saved
+                    if changed and len(out['failures']) < 20:
+                        out['failures'].append({'config': cfg, 'operand': oname, 'keys': list(ks), 'call': cname,
+                                                'what': 'a previously returned multivector changed when the operand was written in place'})
+        if len(out['samples']) < 2:
+            out['samples'].append({'config': cfg, 'operands': [o for o, _ in operands], 'calls': sorted(calls)})
     out['distinct'] = n
     return out
